@@ -185,6 +185,18 @@ def run(ctx):
         tk = side_tokens(c, t["args"][2])
         rep.check(any(x.startswith("u:") and x.endswith("admitted") for x in tk), "C08.R3", "pass:committed-ids-from-admitted", "recorded ids derive from the admitted batch",
                   "recorded ids do not derive from the admitted batch: %s" % sorted(tk), site=c.loc())
+    # ... and recovery re-records it: replaying a persisted receipt correlation refills the committed-ingress ledger on EVERY
+    # success path (the frontier it refills may just have been replaced by a provenance replay whose ledger is empty)
+    rrc = prog.fn(CO + "WorldlineRuntime::restore_receipt_correlation")
+    rsites = rrc.call_sites(r"record_committed_ingress$")
+    oks_r = ok_return_blocks(rrc)[0]
+    rep.check(len(rsites) >= 1 and bool(oks_r), "C08.R3", "recovery:re-records-committed-ingress:anchors", "restore_receipt_correlation records committed ingress",
+              "restore_receipt_correlation no longer records committed ingress (%d sites)" % len(rsites), site=rrc.loc())
+    if rsites and oks_r:
+        w_ = rrc.path([0], oks_r, avoid_blocks=rsites)
+        rep.check(w_ is None, "C08.R3", "recovery:every-success-re-records-committed-ingress", "every Ok return passes record_committed_ingress",
+                  "restore_receipt_correlation can return Ok without re-recording the committed ingress (%s): after a recovery replay over a live runtime a retried intent is accepted and "
+                  "committed a second time" % rrc.describe_path(w_), site=rrc.loc())
     # the committed-ingress ledger survives a rolled-back pass: the pre-pass checkpoint copies it from the live state
     from .C09 import checkpoint_copy_rules
     checkpoint_copy_rules(rep, prog, "C08.R3", only_fields={"committed_ingress"})
